@@ -353,7 +353,7 @@ func c20LitExpr(typ int, text string) influxql.Expr {
 }
 
 var c20Tok = map[string]influxql.Token{"=": influxql.EQ, "!=": influxql.NEQ, "<": influxql.LT, "<=": influxql.LTE,
-	">": influxql.GT, ">=": influxql.GTE, "MATCHPHRASE": influxql.MATCHPHRASE, "IN": influxql.IN}
+	">": influxql.GT, ">=": influxql.GTE, "MATCHPHRASE": influxql.MATCHPHRASE, "IN": influxql.IN, "IPINRANGE": influxql.IPINRANGE}
 
 func (s *c20Schema) atomExpr(a c20Atom) influxql.Expr {
 	c := &s.Cols[a.Col]
@@ -1425,8 +1425,11 @@ func TestVerifC20(t *testing.T) {
 		return
 	}
 	env := &c20SkEnv{scratch: kit.Scratch()}
-	for _, sp := range c20SkPlans(kit.Thorough()) {
+	for _, sp := range append(c20SkPlans(kit.Thorough()), c20MultiPlans(kit.Thorough())...) {
 		sp := sp
+		if only := os.Getenv("C20_SKIP_ONLY"); only != "" && only != sp.Index {
+			continue
+		}
 		t0 := time.Now()
 		sp.run(rep, env, &wi)
 		rep.Max("max_ms_skip_"+sp.Index+"_"+sp.Cols[0].Name+strconv.Itoa(sp.NIdx), time.Since(t0).Milliseconds())
@@ -1738,8 +1741,8 @@ func (a c20SkAtom) text() string {
 	if a.Typ == influx.Field_Type_String {
 		lit = "'" + lit + "'"
 	}
-	if a.Op == "MATCHPHRASE" {
-		return "MATCHPHRASE(" + a.Col + ", " + lit + ")"
+	if a.Op == "MATCHPHRASE" || a.Op == "IPINRANGE" {
+		return a.Op + "(" + a.Col + ", " + lit + ")"
 	}
 	return a.Col + " " + a.Op + " " + lit
 }
@@ -1758,6 +1761,9 @@ func (a c20SkAtom) truth(cell *string) bool {
 	case influx.Field_Type_String:
 		if a.Op == "MATCHPHRASE" {
 			return c20PhraseMatch(*cell, a.Lit)
+		}
+		if a.Op == "IPINRANGE" {
+			return binaryfilterfunc.IsIpInRange(*cell, a.Lit) // the row filter's own function (GetStringIPInRangeBitMap)
 		}
 		return c20CmpOp(a.Op, strings.Compare(*cell, a.Lit))
 	case influx.Field_Type_Int:
@@ -1820,6 +1826,9 @@ type c20SkCase struct {
 	Shape  int         `json:"shape"`
 	And    [3]bool     `json:"and"`
 	Text   string      `json:"text"`
+	// several indexed columns / several indexes at once, readers created by CreateSKFileReaders (c20_multi_test.go)
+	Indexes []c20SkIdx `json:"indexes,omitempty"`
+	Order   int        `json:"order,omitempty"` // permutation of the readers CreateSKFileReaders returned (map order in production)
 }
 
 func (cs *c20SkCase) key() string {
@@ -1834,6 +1843,9 @@ func (cs *c20SkCase) key() string {
 			}
 		}
 		rows = append(rows, strings.Join(p, " "))
+	}
+	if cs.Order != 0 {
+		return fmt.Sprintf("%s cond={%s} rows=[%s] layout=%v readers-reversed", cs.Index, cs.Text, strings.Join(rows, " | "), cs.Layout)
 	}
 	return fmt.Sprintf("%s cond={%s} rows=[%s] layout=%v", cs.Index, cs.Text, strings.Join(rows, " | "), cs.Layout)
 }
@@ -1886,6 +1898,19 @@ func (cs *c20SkCase) colIdx(name string) int {
 func (cs *c20SkCase) matchMask() uint16 {
 	am := make([]uint16, len(cs.Atoms))
 	for ai, a := range cs.Atoms {
+		if a.Col == c20FullTextCol {
+			// the row filter (binaryfilterfunc genRPNElementByFullText) expands an atom on the full-text pseudo column
+			// into the OR of the same atom on every column of the full-text index
+			for _, name := range cs.fullTextCols() {
+				ci := cs.colIdx(name)
+				for i, r := range cs.Rows {
+					if a.truth(r[ci]) {
+						am[ai] |= 1 << i
+					}
+				}
+			}
+			continue
+		}
 		ci := cs.colIdx(a.Col)
 		for i, r := range cs.Rows {
 			if a.truth(r[ci]) {
@@ -2035,6 +2060,9 @@ func c20MinMaxRecord(cs *c20SkCase, nIdx int, bounds []int) *record.Record {
 
 // check executes one skip-index case from scratch.
 func (cs *c20SkCase) check(env *c20SkEnv, nIdx int) (r c20SkResult) {
+	if len(cs.Indexes) > 0 {
+		return cs.checkMulti(env)
+	}
 	expr := cs.condExpr()
 	opt := &query.ProcessorOptions{Condition: expr}
 	var sc record.Schemas
@@ -2124,6 +2152,7 @@ type c20SkResult struct {
 	kind, detail     string
 	errText          string
 	cov, need, match uint16
+	readers          int // multi-column part: number of readers CreateSKFileReaders returned
 }
 
 
@@ -2136,6 +2165,8 @@ type c20SkPlan struct {
 	Layouts string // "fixed" | "all" | "single"
 	Atoms   []c20SkAtom
 	Atoms3  []c20SkAtom
+	// multi-column part (c20_multi_test.go): the indexes of the measurement; readers come from CreateSKFileReaders
+	Indexes []c20SkIdx
 }
 
 func c20Str(s string) *string { return &s }
@@ -2185,6 +2216,54 @@ func (p *c20SkPlan) run(rep *kit.Report, env *c20SkEnv, wi *int) {
 	kit.Odometer(radix, func(d []int) bool { tuples = append(tuples, append([]int(nil), d...)); return true })
 	vio := map[string]int{}
 	var evals, nontrivial, errs, pruned int64
+	// one executes a case and books the result; it returns the number of readers the factory created
+	one := func(cs c20SkCase, layout []int) int {
+		res := cs.check(env, p.NIdx)
+		evals++
+		env.sinceGC += 1 + res.readers
+		if env.sinceGC >= 400 {
+			env.sinceGC = 0
+			runtime.GC() // LineFilterReader file handles are only released by finalizers
+		}
+		if res.errText != "" {
+			errs++
+			if strings.Contains(res.errText, "panic") {
+				rep.Count("sk_"+p.Index+"_panic", 1)
+			}
+			if strings.Contains(res.errText, "INFINITY") {
+				rep.Count("sk_minmax_shared_infinity_constant_modified", 1)
+			}
+			return res.readers
+		}
+		if res.cov != uint16(1<<len(layout))-1 {
+			pruned++
+		}
+		if !res.bad {
+			// non-trivial iff some block was pruned and some row matches
+			if res.match != 0 && res.cov != uint16(1<<len(layout))-1 {
+				nontrivial++
+				if nontrivial&63 == 1 {
+					cs.Text = cs.condText()
+					if rep.DistinctNontrivial(kit.Hash("sk", p.Index, cs.Text, fmt.Sprint(layout))) {
+						rep.Sample(8, map[string]any{"part": "skip:" + p.Index, "case": cs.key(), "blocks_kept": c20Bits(res.cov)})
+					}
+				}
+			}
+			return res.readers
+		}
+		kind, detail := res.kind, res.detail
+		nontrivial++
+		vio[kind]++
+		rep.Count("violations_"+kind, 1)
+		if vio[kind] > 12 {
+			rep.Violation(kind, "", "", nil)
+			return res.readers
+		}
+		cs.Text = cs.condText()
+		cp := cs
+		rep.Violation(kind, cs.key(), detail, cp)
+		return res.readers
+	}
 	for n := 1; n <= p.Rows[0]; n++ {
 		var layouts [][]int
 		switch p.Layouts {
@@ -2238,50 +2317,13 @@ func (p *c20SkPlan) run(rep *kit.Report, env *c20SkEnv, wi *int) {
 						break
 					}
 					cs.Part, cs.Index, cs.Cols, cs.Types, cs.Rows, cs.Layout = "skip", p.Index, cols, types, rows, layout
-					res := cs.check(env, p.NIdx)
-					evals++
-					env.sinceGC++
-					if env.sinceGC >= 400 {
-						env.sinceGC = 0
-						runtime.GC() // LineFilterReader file handles are only released by finalizers
+					cs.Indexes = p.Indexes
+					// with several indexes production iterates a map of readers: both orders of two readers are legal and
+					// enumerated (the second order only if the condition made CreateSKFileReaders return two readers)
+					if one(cs, layout) >= 2 {
+						cs.Order = 1
+						one(cs, layout)
 					}
-					if res.errText != "" {
-						errs++
-						if strings.Contains(res.errText, "panic") {
-							rep.Count("sk_"+p.Index+"_panic", 1)
-						}
-						if strings.Contains(res.errText, "INFINITY") {
-							rep.Count("sk_minmax_shared_infinity_constant_modified", 1)
-						}
-						continue
-					}
-					if res.cov != uint16(1<<len(layout))-1 {
-						pruned++
-					}
-					if !res.bad {
-						// non-trivial iff some block was pruned and some row matches
-						if res.match != 0 && res.cov != uint16(1<<len(layout))-1 {
-							nontrivial++
-							if nontrivial&63 == 1 {
-								cs.Text = cs.condText()
-								if rep.DistinctNontrivial(kit.Hash("sk", p.Index, cs.Text, fmt.Sprint(layout))) {
-									rep.Sample(8, map[string]any{"part": "skip:" + p.Index, "case": cs.key(), "blocks_kept": c20Bits(res.cov)})
-								}
-							}
-						}
-						continue
-					}
-					kind, detail := res.kind, res.detail
-					nontrivial++
-					vio[kind]++
-					rep.Count("violations_"+kind, 1)
-					if vio[kind] > 12 {
-						rep.Violation(kind, "", "", nil)
-						continue
-					}
-					cs.Text = cs.condText()
-					cp := cs
-					rep.Violation(kind, cs.key(), detail, cp)
 				}
 			}
 		}
@@ -2336,7 +2378,10 @@ func c20SkPlans(thorough bool) []c20SkPlan {
 		{Index: "set", Cols: []c20SkCol{{Name: "s", Typ: S, Dom: sDom}, v}, NIdx: 1, Rows: [3]int{2, 0, 0}, Layouts: "fixed", Atoms: sAtoms},
 		{Index: "minmax", Cols: []c20SkCol{{Name: "s", Typ: S, Dom: sDom}, v}, NIdx: 1, Sorted: true, Rows: mmRows, Layouts: "fixed", Atoms: sAtoms},
 		{Index: "minmax", Cols: []c20SkCol{{Name: "i", Typ: I, Dom: iDom}, v}, NIdx: 1, Sorted: true, Rows: mmRows, Layouts: "fixed", Atoms: iAtoms},
-		{Index: "minmax", Cols: []c20SkCol{{Name: "s", Typ: S, Dom: sDom}, {Name: "i", Typ: I, Dom: iDom}, v}, NIdx: 2, Rows: mm2Rows, Layouts: "single", Atoms: siAtoms},
+		// two min-max columns: through the factory (CreateSKFileReaders), i.e. with the reader schema production builds -
+		// the index columns in the order the condition mentions them, a column mentioned twice appears twice
+		{Index: "minmax", Cols: []c20SkCol{{Name: "s", Typ: S, Dom: sDom}, {Name: "i", Typ: I, Dom: iDom}, v}, NIdx: 2, Rows: mm2Rows, Layouts: "single", Atoms: siAtoms,
+			Indexes: []c20SkIdx{{"minmax", []string{"s", "i"}}}},
 		{Index: "bloomfilter", Cols: []c20SkCol{{Name: "c", Typ: S, Dom: cDom}, v}, NIdx: 1, Rows: bfRows, Layouts: "all", Atoms: bfAtoms, Atoms3: bfAtoms3},
 	}
 	if thorough {
